@@ -232,9 +232,10 @@ impl CoverageFormat2<'_> {
                 }
             })
             .ok()
-            .map(|idx| {
+            .and_then(|idx| {
                 let rec = &self.range_records()[idx];
-                rec.start_coverage_index() + (gid.to_u16() - rec.start_glyph_id().to_u16())
+                rec.start_coverage_index()
+                    .checked_add(gid.to_u16() - rec.start_glyph_id().to_u16())
             })
     }
 
@@ -419,7 +420,7 @@ impl<'a> Device<'a> {
     /// Iterate over the decoded values for this device
     pub fn iter(&self) -> impl Iterator<Item = i8> + 'a {
         let format = self.delta_format();
-        let mut n = (self.end_size() - self.start_size()) as usize + 1;
+        let mut n = (self.end_size() as usize + 1).saturating_sub(self.start_size() as usize);
         let deltas_per_word = match format {
             DeltaFormat::Local2BitDeltas => 8,
             DeltaFormat::Local4BitDeltas => 4,
